@@ -180,6 +180,9 @@ def h_lifecycle(ctx, ndef, plan, in_handler=(), requit=None, via_event=False):
         core.quit()            # a second request after the shutdown has completed (same thread, not starting up: runs _quit directly)
       elif op == 'G' and not gone_up:
         core.goUp(); gone_up = True
+      elif op == 'L':
+        # a component that comes late takes (and releases) a deferral when the system may already be up: Up is not raised a second time
+        core._get_go_up_deferral()()
       elif op in '01':
         k = int(op)
         if k < ndef and k not in released:
@@ -247,6 +250,7 @@ def obligations(tier):
       life.append(dict(ndef=nd, plan=p))
   life += [dict(ndef=0, plan='GQ', requit='in_going_down'), dict(ndef=0, plan='GQ', requit='in_going_down_late'), dict(ndef=0, plan='GQ', requit='in_down'),
            dict(ndef=0, plan='GQq'), dict(ndef=1, plan='G0Q', requit='in_going_down'), dict(ndef=1, plan='G0Qq', requit='in_down')]
+  life += [dict(ndef=0, plan='GL'), dict(ndef=1, plan='G0L'), dict(ndef=1, plan='GL0L'), dict(ndef=0, plan='LGLQ')]       # L: a late deferral, taken and released at once
   life += [dict(ndef=nd, plan=p, via_event=True) for nd, p in ((1, 'G0'), (1, 'G0Q'), (2, 'G01'), (2, 'G10'), (2, 'G0Q'), (2, 'G10Q'))]
   life += [dict(ndef=1, plan='G', in_handler=(0,)), dict(ndef=2, plan='G1', in_handler=(0,)), dict(ndef=2, plan='1G', in_handler=(0,)),
            dict(ndef=2, plan='G', in_handler=(0, 1)), dict(ndef=1, plan='GQ', in_handler=(0,))]
